@@ -63,7 +63,9 @@ def build(sp: Dict[str, Any]) -> nx.Graph:
     r.shuffle(new)
     off = r.choice([0, 10, 100])
     m = {i: j + off for i, j in zip(ids, new)}
-    nodes = [(m[n], dict(d, atom_map=m[n])) for n, d in g.nodes(data=True)]
+    as_float = r.random() < 0.2   # charges written as floats: 0.0 == 0, the class must not change
+    nodes = [(m[n], dict(d, atom_map=m[n], charge=(float(d.get("charge", 0)) if as_float else d.get("charge", 0))))
+             for n, d in g.nodes(data=True)]
     edges = [((m[u], m[v]) if r.random() < 0.5 else (m[v], m[u])) + (dict(d),) for u, v, d in g.edges(data=True)]
     r.shuffle(nodes)
     r.shuffle(edges)
@@ -82,7 +84,20 @@ def content_key(sp: Dict[str, Any]) -> str:
 
 def invariant_attr(g: nx.Graph) -> str:
     """Isomorphism-invariant pre-grouping attribute computed by the harness (never SynKit's signature)."""
-    return "|".join(sorted(f"{d.get('element')}{d.get('charge')}" for _, d in g.nodes(data=True))) + f"#{g.number_of_edges()}"
+    return "|".join(sorted(f"{d.get('element')}{int(d.get('charge', 0))}" for _, d in g.nodes(data=True))) + f"#{g.number_of_edges()}"
+
+
+def invariant_attr_kind(g: nx.Graph, kind: str) -> Any:
+    """Isomorphism-invariant pre-grouping attributes of several Python types (all computed by the harness)."""
+    if kind == "str":
+        return invariant_attr(g)
+    if kind == "deg_desc":                      # a list that is NOT in ascending order
+        return sorted((d for _, d in g.degree()), reverse=True)
+    if kind == "size_pair":
+        return [g.number_of_nodes(), g.number_of_edges()]
+    if kind == "int":
+        return g.number_of_nodes() * 100 + g.number_of_edges()
+    raise ValueError(kind)
 
 
 def isomorphic(sp1: Dict[str, Any], sp2: Dict[str, Any]) -> bool:
